@@ -14,6 +14,7 @@ import (
 	"slices"
 	"strings"
 
+	"cuelang.org/go/cue/ast"
 	"cuelang.org/go/internal/buildattr"
 	"cuelang.org/go/internal/mod/modimports"
 	"cuelang.org/go/internal/mod/modpkgload"
@@ -260,11 +261,52 @@ func (ld *loader) tidyOnce(ctx context.Context, rootPkgPaths []string, origRs *m
 			return nil, fmt.Errorf("failed to resolve %q: %v", pkg.ImportPath(), pkg.Error())
 		}
 	}
-	rs, err = ld.tidyRoots(ctx, rs, pkgs)
+	tidyRs, err := ld.tidyRoots(ctx, rs, pkgs)
 	if err != nil {
 		return nil, fmt.Errorf("cannot tidy requirements: %v", err)
 	}
-	return rs, nil
+	return keepImpliedDefaults(rs, tidyRs, pkgs), nil
+}
+
+// keepImpliedDefaults returns tidyRs with an explicit default major version
+// for every module base path for which an import without a major version
+// was resolved in rs only because rs had a single major version of that
+// module among its roots, when that is no longer the case in tidyRs.
+//
+// That happens when tidyRoots promotes another major version of the same
+// module (reached through the module graph and imported with an explicit
+// major version) to a root: without an explicit default, the resulting
+// module file would make the unqualified import ambiguous, and the module
+// that has just been tidied could no longer be loaded.
+func keepImpliedDefaults(rs, tidyRs *modrequirements.Requirements, pkgs *modpkgload.Packages) *modrequirements.Requirements {
+	var defaults map[string]string
+	for _, pkg := range pkgs.All() {
+		if !pkg.FromExternalModule() || !pkg.Mod().IsValid() || pkg.Mod().IsLocal() {
+			continue
+		}
+		if ast.ParseImportPath(pkg.ImportPath()).Version != "" {
+			continue
+		}
+		base := pkg.Mod().BasePath()
+		major, status := rs.DefaultMajorVersion(base)
+		if status != modrequirements.NonExplicitDefault {
+			continue
+		}
+		if _, status := tidyRs.DefaultMajorVersion(base); status != modrequirements.AmbiguousDefault {
+			continue
+		}
+		if defaults == nil {
+			defaults = maps.Clone(tidyRs.DefaultMajorVersions())
+			if defaults == nil {
+				defaults = make(map[string]string)
+			}
+		}
+		defaults[base] = major
+	}
+	if defaults == nil {
+		return tidyRs
+	}
+	return tidyRs.WithDefaultMajorVersions(defaults)
 }
 
 // mergeRequirements returns the maximum selected version for every module
